@@ -702,6 +702,11 @@ func (req *Request) buildDistributedRequestData(subBackends []string) (requestDa
 		requestData["sort"] = sort
 	}
 
+	// the user the result is restricted to
+	if req.AuthUser != "" {
+		requestData["authuser"] = req.AuthUser
+	}
+
 	// Get hash with metadata in addition to table rows
 	requestData["outputformat"] = "wrapped_json"
 
